@@ -9532,6 +9532,9 @@ class TreeSequence:
             S = self.ll_tree_sequence.segregating_sites(n, flattened, **kwargs)
             h = np.array([np.sum(1 / np.arange(1, nn)) for nn in n])
             g = np.array([np.sum(1 / np.arange(1, nn) ** 2) for nn in n])
+            # The sizes are unsigned 32 bit integers: n**2 and 9 * n * (n - 1)
+            # wrap around for sample sets of a few tens of thousands of samples.
+            n = n.astype(np.float64)
             with np.errstate(invalid="ignore", divide="ignore"):
                 a = (n + 1) / (3 * (n - 1) * h) - 1 / h**2
                 b = (
